@@ -43,6 +43,7 @@ def run(db, rep, feat, tier):
     r3(db, rep)
     r4(db, rep, cache, trans, join)
     r6b(db, rep, trans)
+    r9(db, rep)
     # the chains are built from Operation::scalars_read / scalars_written: those sets must be complete (C10.R2c)
     import props.c10 as c10
     c10.r2c(db, rep, "R8")
@@ -113,9 +114,54 @@ def r1_r5(db, rep, cache, trans):
             f = t.get("f") or ""
             if f in ("std::iter::Iterator::all", "std::iter::Iterator::any") and "Scalar" in t.get("fg", ""):
                 quant.append((last_seg(f), db.where(body, t["l"])))
-    rep.anchor(len(quant) == 1, "one quantifier over written scalars in the kill filter (found %s)" % quant)
-    r6.decide(quant[0][0] == "all", "trans|kill_quantifier", quant[0][1],
+    rep.anchor(len(quant) >= 1, "a quantifier over written scalars in the kill filter (found %s)" % quant)
+    anys = [q for q in quant if q[0] == "any"]
+    r6.decide(not anys, "trans|kill_quantifier", (anys or quant)[0][1],
               "a definition is killed as soon as *any* scalar it writes is overwritten")
+    # edges and empty blocks define nothing and kill nothing
+    hb = db.hir[trans]
+    r4b = rep.rule("R4b", "K4", "reaching-definitions transfer: Edge and EmptyBlock locations leave the state unchanged (an edge "
+                   "evaluates a guard, it assigns no scalar: dropping or adding definitions there changes what reaches the "
+                   "successor block)")
+    found = False
+    for m in walk(hb["body"]):
+        if m.get("k") != "Match" or m.get("src") != "Normal":
+            continue
+        from db import pat_leaves, pat_path
+        for a in m["arms"]:
+            names = {last_seg(pat_path(p) or "") for p in pat_leaves(a["pat"])}
+            if names and names <= {"Edge", "EmptyBlock"}:
+                found = True
+                effects = [x for x in walk(a["body"]) if x.get("k") in ("MethodCall", "Call", "Assign", "AssignOp")]
+                r4b.decide(not effects, "trans|%s|identity" % "+".join(sorted(names)), db.where(hb, a.get("l", m["l"])),
+                           "the %s arm of the transfer function changes the state" % "/".join(sorted(names)))
+    rep.anchor(found, "Edge / EmptyBlock arm of the reaching-definitions transfer function")
+
+
+def r9(db, rep):
+    r = rep.rule("R9", "K7", "the chains list *every* reaching definition that writes the scalar: def_use / use_def iterate the whole "
+                 "reaching-definition set (for / for_each / filter), they never select one element of it (find, find_map, position, "
+                 "nth, next, take, min, max)")
+    SELECT = ("find", "find_map", "position", "rposition", "nth", "take", "min_by", "max_by", "min_by_key", "max_by_key", "min", "max", "last")
+    bad = []
+    n = 0
+    for top in (UD, DU):
+        for d in bodies_under(db, top):
+            body = db.mir.get(d)
+            if body is None:
+                continue
+            for i, t in mir_calls(body):
+                f = t.get("f") or mir_callee(t) or ""
+                if f.startswith("std::iter::Iterator::"):
+                    n += 1
+                    if last_seg(f) in SELECT and "ProgramLocation" in (t.get("fg") or ""):
+                        bad.append((d, f, t.get("l"), body))
+    for d, f, l, body in bad:
+        r.bad("%s|selects_one|%s" % (last_seg(d.split("::{closure")[0]), last_seg(f)), db.where(body, l),
+              "%s picks a single reaching definition with Iterator::%s: when a scalar is defined on several paths only one of the "
+              "definitions enters the chain" % (last_seg(d.split("::{closure")[0]), last_seg(f)))
+    if not bad:
+        r.ok("chains|iterate_all", "", detail={"iterator_calls": n})
 
 
 def r6b(db, rep, trans):
